@@ -1066,7 +1066,7 @@ func c04DirtyOrArmedAs(c *eng.Ctx, r *eng.Report, rule string) {
 			r.Check(ok, rule, fmt.Sprintf("hook-consumed:%s#%d", name, i), c.Pos(d.Pos()), "onDirty is cleared only after it was called", eng.FuncName(fn)+" clears the object's onDirty hook without having called it: the object is neither dirty nor armed, its writes never reach the trie")
 		}
 	}
-	r.Check(nDel >= 3 && nReset >= 2 && nClear >= 4, rule, "dirty-or-armed:sites", "", fmt.Sprintf("%d removals, %d resets, %d hook clears", nDel, nReset, nClear), fmt.Sprintf("only %d removals from the dirty set, %d resets and %d hook clears found (3/2/4 expected)", nDel, nReset, nClear))
+	r.Check(nDel >= 3 && nReset >= 2 && nClear >= 1 /* the consume-and-clear idiom may live in one helper */, rule, "dirty-or-armed:sites", "", fmt.Sprintf("%d removals, %d resets, %d hook clears", nDel, nReset, nClear), fmt.Sprintf("only %d removals from the dirty set, %d resets and %d hook clears found (at least 3/2/1 expected)", nDel, nReset, nClear))
 }
 
 // unload strips the load of a field address (`*(&x.f)` → `&x.f`).
